@@ -110,7 +110,7 @@ def draw_cover(rng, keys, vals, mbn, embs=C.API_EMBS, strategy=True):
     if not strategy:
         return c
     if (not two and n >= 2 and rng.random() < 0.25 and mask["k"] != "pos" and not (mask["k"] == "slice" and mask["s"][2] not in (-997, 1))
-            and not (kenc == "str" and k1[0] == NULL) and kenc not in ("cat", "catperm")):
+            and kenc not in ("cat", "catperm")):
         c["T"] = 2 if n < 6 else rng.pick([2, 4])
     return c
 
